@@ -116,7 +116,7 @@ OutOfContract(c) ==
     /\ aslot' = Without(aslot, c.i) /\ aret' = R(None) /\ UNCHANGED ahi
     /\ Book(c.op, c.i, 0, None, -1)
     /\ taint' = taint \cup {c.i}
-    /\ ooc' = IF Len(ooc) < 6 THEN Append(ooc, <<l + 1, c.op, c.i>>) ELSE ooc
+    /\ ooc' = IF Len(ooc) < 5 THEN Append(ooc, l + 1) ELSE ooc   \* keeps the verdict on one line
     /\ l' = l + 1
     /\ UNCHANGED <<tid, st, insync>>
 
